@@ -91,6 +91,10 @@ type viCfg struct {
 	Rsrc string `json:"rsrc"`
 	Rk   int    `json:"rk"`
 	Rknd string `json:"rkind"`
+	// chain-parameter set: Lt = -1, Ln = 0 regtest-like; Lt >= 1 testnet-like
+	// rules with Ln consecutive late minimum-difficulty blocks from height Lt
+	Lt int `json:"lt"`
+	Ln int `json:"ln"`
 }
 
 type viAct struct {
@@ -155,6 +159,59 @@ var viParams = func() chaincfg.Params {
 	return p
 }()
 
+// Testnet-like chain parameters (second parameter set of the family): the
+// limit of the regtest-like set, but ReduceMinDifficulty applies and
+// PoWNoRetargeting is off; the retarget interval (2016 blocks) is far longer
+// than the universe, so no retarget happens.  A header more than
+// MinDiffReductionTime (20 min = 2 x TargetTimePerBlock) after its parent must
+// carry the limit bits, any other header the bits of the last ancestor that
+// is not a minimum-difficulty block.  The genesis block carries "hard" bits
+// (256 times the work of the limit: a real search of a few hundred hashes per
+// header) and the time of the universe, so that block 1 is on time.
+const viHardBits = uint32(0x1f7fffff)
+
+var viTestnetParams = func() chaincfg.Params {
+	p := chaincfg.RegressionNetParams
+	p.Checkpoints = nil
+	p.PoWNoRetargeting = false
+	p.ReduceMinDifficulty = true
+	p.MinDiffReductionTime = 20 * time.Minute
+	p.TargetTimePerBlock = 10 * time.Minute
+	p.TargetTimespan = 14 * 24 * time.Hour
+	gen := *chaincfg.RegressionNetParams.GenesisBlock
+	gen.Header.Timestamp = time.Unix(viT0, 0)
+	gen.Header.Bits = viHardBits
+	gen.Header.Nonce = 0
+	viMine(&gen.Header, true)
+	hash := gen.Header.BlockHash()
+	p.GenesisBlock, p.GenesisHash = &gen, &hash
+	return p
+}()
+
+// viLateGap is how much later than the regular spacing a late block is
+// (600 + 1800 s after its parent: beyond MinDiffReductionTime).
+const viLateGap = 1800
+
+// viReqBits is the generator's OWN statement of the difficulty rule for
+// chain[i] given its timestamp (cross-checked against btcd by viTruth for every
+// header the generator builds): no retargeting => the limit; testnet-like =>
+// the limit if the header is late, otherwise the bits of the last ancestor
+// that is not a minimum-difficulty block (genesis ends the search).
+func viReqBits(p *chaincfg.Params, chain []*wire.BlockHeader, i int) uint32 {
+	if p.PoWNoRetargeting || !p.ReduceMinDifficulty {
+		return p.PowLimitBits
+	}
+	gap := chain[i].Timestamp.Unix() - chain[i-1].Timestamp.Unix()
+	if gap > int64(p.MinDiffReductionTime/time.Second) {
+		return p.PowLimitBits
+	}
+	j := i - 1
+	for j > 0 && chain[j].Bits == p.PowLimitBits {
+		j--
+	}
+	return chain[j].Bits
+}
+
 func viSum(parts ...string) chainhash.Hash {
 	return sha256.Sum256([]byte(strings.Join(parts, "|")))
 }
@@ -211,12 +268,12 @@ func (c *viChainCtx) FindPreviousCheckpoint() (blockchain.HeaderCtx, error) {
 // viTruth says whether chain[i] is a fully valid child of chain[i-1]: btcd's
 // own header rules evaluated over the complete slice of ancestors (not the
 // importer's light context) plus the link.
-func viTruth(chain []*wire.BlockHeader, i int) error {
+func viTruth(params *chaincfg.Params, chain []*wire.BlockHeader, i int) error {
 	prevHash := chain[i-1].BlockHash()
 	if chain[i].PrevBlock != prevHash {
 		return errors.New("does not connect")
 	}
-	p := viParams
+	p := *params
 	if err := blockchain.CheckBlockHeaderSanity(
 		chain[i], p.PowLimit, blockchain.NewMedianTime(), blockchain.BFNone,
 	); err != nil {
@@ -232,6 +289,9 @@ func viTruth(chain []*wire.BlockHeader, i int) error {
 type viWorld struct {
 	seed   string
 	hh     int // heights 0..hh-1 exist
+	params chaincfg.Params
+	class  string // "R" regtest-like, "T" testnet-like (another genesis block)
+	lt, ln int    // testnet-like: ln late blocks from height lt on; lt = -1 otherwise
 	main   []*wire.BlockHeader
 	mainF  []chainhash.Hash
 	mu     sync.Mutex
@@ -247,35 +307,63 @@ type viBranch struct {
 	fh   []chainhash.Hash    // filter headers 100+h, index h-x
 }
 
-func viNewWorld(seed string, hh int) (*viWorld, error) {
-	w := &viWorld{seed: seed, hh: hh, branch: map[string]*viBranch{}}
+// refTime is the timestamp of the reference header at height h: regular
+// spacing, plus viLateGap for every late block at or below h.
+func (w *viWorld) refTime(h int) int64 {
+	t := viT0 + 600*int64(h)
+	for l := w.lt; w.lt >= 0 && l < w.lt+w.ln && l <= h; l++ {
+		t += viLateGap
+	}
+	return t
+}
+
+// viNewWorld builds the reference chain.  lt < 0: the regtest-like universe.
+// lt >= 1: the testnet-like universe with ln late blocks from height lt on.
+func viNewWorld(seed string, hh, lt, ln int) (*viWorld, error) {
+	w := &viWorld{seed: seed, hh: hh, branch: map[string]*viBranch{}, params: viParams, class: "R", lt: -1}
+	if lt >= 0 {
+		if lt < 1 || ln < 1 {
+			return nil, fmt.Errorf("generator: bad late blocks lt=%d ln=%d", lt, ln)
+		}
+		w.params, w.class, w.lt, w.ln = viTestnetParams, "T", lt, ln
+	}
 	w.main = make([]*wire.BlockHeader, hh)
 	w.mainF = make([]chainhash.Hash, hh)
-	gen := viParams.GenesisBlock.Header
+	gen := w.params.GenesisBlock.Header
 	w.main[0] = &gen
 	for h := 1; h < hh; h++ {
 		hd := &wire.BlockHeader{
 			Version:    4,
 			PrevBlock:  w.main[h-1].BlockHash(),
 			MerkleRoot: viSum("main", seed, strconv.Itoa(h)),
-			Timestamp:  time.Unix(viT0+600*int64(h), 0),
-			Bits:       viParams.PowLimitBits,
+			Timestamp:  time.Unix(w.refTime(h), 0),
 		}
-		viMine(hd, true)
 		w.main[h] = hd
+		hd.Bits = viReqBits(&w.params, w.main, h)
+		viMine(hd, true)
 		w.mainF[h] = viSum("mainF", seed, strconv.Itoa(h))
 	}
-	gf, err := builder.BuildBasicFilter(viParams.GenesisBlock, nil)
+	gf, err := builder.BuildBasicFilter(w.params.GenesisBlock, nil)
 	if err != nil {
 		return nil, err
 	}
-	w.mainF[0], err = builder.MakeHeaderForFilter(gf, viParams.GenesisBlock.Header.PrevBlock)
+	w.mainF[0], err = builder.MakeHeaderForFilter(gf, w.params.GenesisBlock.Header.PrevBlock)
 	if err != nil {
 		return nil, err
 	}
 	for h := 1; h < hh; h++ {
-		if err := viTruth(w.main, h); err != nil {
+		if err := viTruth(&w.params, w.main, h); err != nil {
 			return nil, fmt.Errorf("generator: reference header %d is not valid: %v", h, err)
+		}
+	}
+	if w.class == "T" {
+		// the universe is what it claims to be: hard bits everywhere but at
+		// the late blocks, which carry the limit
+		for h := 0; h < hh; h++ {
+			late := h >= lt && h < lt+ln
+			if late != (w.main[h].Bits == w.params.PowLimitBits) || (!late && w.main[h].Bits != viHardBits) {
+				return nil, fmt.Errorf("generator: testnet-like reference header %d has bits %08x", h, w.main[h].Bits)
+			}
 		}
 	}
 	return w, nil
@@ -301,8 +389,13 @@ func (w *viWorld) getBranch(x int, kind string) (*viBranch, error) {
 			Version:    4,
 			PrevBlock:  prev,
 			MerkleRoot: viSum("alt", w.seed, kind, strconv.Itoa(x), strconv.Itoa(h)),
-			Timestamp:  time.Unix(viT0+600*int64(h)+1, 0),
-			Bits:       viParams.PowLimitBits,
+			Timestamp:  time.Unix(w.refTime(h)+1, 0),
+			Bits:       w.params.PowLimitBits,
+		}
+		if x > 0 {
+			// the bits the rule demands at this place of this branch
+			chain := append(append(append([]*wire.BlockHeader{}, w.main[:x]...), b.hdr...), hd)
+			hd.Bits = viReqBits(&w.params, chain, h)
 		}
 		valid := true
 		if h == x {
@@ -312,9 +405,16 @@ func (w *viWorld) getBranch(x int, kind string) (*viBranch, error) {
 			case "bits":
 				hd.Bits = viBadBits
 			case "time":
-				hd.Timestamp = time.Unix(viParams.GenesisBlock.Header.Timestamp.Unix()-600, 0)
+				hd.Timestamp = time.Unix(w.params.GenesisBlock.Header.Timestamp.Unix()-600, 0)
 			case "link":
 				hd.PrevBlock = viSum("nowhere", w.seed, strconv.Itoa(x))
+			case "easybits":
+				// stays at minimum difficulty although it is on time and an
+				// ancestor below the late block(s) carries hard bits
+				if hd.Bits == w.params.PowLimitBits {
+					return nil, fmt.Errorf("generator: easybits at %d: the rule demands the limit bits there", x)
+				}
+				hd.Bits = w.params.PowLimitBits
 			}
 		}
 		viMine(hd, valid)
@@ -326,10 +426,22 @@ func (w *viWorld) getBranch(x int, kind string) (*viBranch, error) {
 	if x > 0 {
 		chain := append(append([]*wire.BlockHeader{}, w.main[:x]...), b.hdr...)
 		for h := x; h < w.hh; h++ {
-			err := viTruth(chain, h)
+			err := viTruth(&w.params, chain, h)
 			wantBad := h == x && kind != "fork"
 			if wantBad && err == nil {
 				return nil, fmt.Errorf("generator: %s header at %d passes the ground-truth rules", kind, h)
+			}
+			if wantBad && kind == "easybits" {
+				// exactly the contextual difficulty rule rejects it: its
+				// proof of work is valid for the bits it carries
+				var re blockchain.RuleError
+				if !errors.As(err, &re) || re.ErrorCode != blockchain.ErrUnexpectedDifficulty {
+					return nil, fmt.Errorf("generator: easybits header at %d rejected for another reason: %v", h, err)
+				}
+				if serr := blockchain.CheckBlockHeaderSanity(chain[h], w.params.PowLimit,
+					blockchain.NewMedianTime(), blockchain.BFNone); serr != nil {
+					return nil, fmt.Errorf("generator: easybits header at %d is not sane: %v", h, serr)
+				}
 			}
 			if !wantBad && err != nil {
 				return nil, fmt.Errorf("generator: branch %s header at %d should be valid: %v", key, h, err)
@@ -359,7 +471,7 @@ type viEnv struct {
 	bPath   string
 	fPath   string
 	plan    *viPlan
-	params  chaincfg.Params // viParams, Net chosen by the checkpoint of cfg
+	params  chaincfg.Params // the world's parameters, Net chosen by the checkpoint of cfg
 	crashed bool
 	detail  []string
 }
@@ -392,8 +504,8 @@ func viCloneDir(src, dst string) error {
 	return nil
 }
 
-func viOpenStores(dir string, create bool, plan *viPlan) (walletdb.DB, headerfs.BlockHeaderStore,
-	headerfs.FilterHeaderStore, error) {
+func viOpenStores(params *chaincfg.Params, dir string, create bool, plan *viPlan) (walletdb.DB,
+	headerfs.BlockHeaderStore, headerfs.FilterHeaderStore, error) {
 
 	var (
 		db  walletdb.DB
@@ -412,7 +524,7 @@ func viOpenStores(dir string, create bool, plan *viPlan) (walletdb.DB, headerfs.
 	if plan != nil {
 		sdb = &viDB{DB: db, p: plan}
 	}
-	p := viParams
+	p := *params
 	b, err := headerfs.NewBlockHeaderStore(dir, sdb, &p)
 	if err != nil {
 		db.Close()
@@ -451,9 +563,38 @@ func viCloseFiles(stores ...interface{}) {
 // templates: one directory per (hB, hF) holding the stores before the import.
 type viTemplates struct {
 	root string
-	w    *viWorld
+	w    *viWorld // the regtest-like world
 	mu   sync.Mutex
 	dirs map[string]*viTmpl
+
+	// testnet-like worlds, one per (lt, ln), built on first use
+	wmu    sync.Mutex
+	worlds map[[2]int]*viWorldOnce
+}
+
+type viWorldOnce struct {
+	once sync.Once
+	w    *viWorld
+	err  error
+}
+
+// world returns the universe a configuration lives in.
+func (t *viTemplates) world(lt, ln int) (*viWorld, error) {
+	if lt < 0 {
+		return t.w, nil
+	}
+	t.wmu.Lock()
+	if t.worlds == nil {
+		t.worlds = map[[2]int]*viWorldOnce{}
+	}
+	e := t.worlds[[2]int{lt, ln}]
+	if e == nil {
+		e = &viWorldOnce{}
+		t.worlds[[2]int{lt, ln}] = e
+	}
+	t.wmu.Unlock()
+	e.once.Do(func() { e.w, e.err = viNewWorld(t.w.seed, t.w.hh, lt, ln) })
+	return e.w, e.err
 }
 
 type viTmpl struct {
@@ -462,9 +603,9 @@ type viTmpl struct {
 	err  error
 }
 
-func (t *viTemplates) base() (string, error) {
-	return t.get("base", func(dir string) error {
-		db, b, f, err := viOpenStores(dir, true, nil)
+func (t *viTemplates) base(w *viWorld) (string, error) {
+	return t.get("base-"+w.class, func(dir string) error {
+		db, b, f, err := viOpenStores(&w.params, dir, true, nil)
 		if err != nil {
 			return err
 		}
@@ -491,16 +632,16 @@ func (t *viTemplates) get(key string, build func(dir string) error) (string, err
 }
 
 // forHeights: block store at hB, filter store at hF <= hB.
-func (t *viTemplates) forHeights(hB, hF int) (string, error) {
-	base, err := t.base()
+func (t *viTemplates) forHeights(w *viWorld, hB, hF int) (string, error) {
+	base, err := t.base(w)
 	if err != nil {
 		return "", err
 	}
-	return t.get(fmt.Sprintf("%d-%d", hB, hF), func(dir string) error {
+	return t.get(fmt.Sprintf("%s%d.%d-%d-%d", w.class, w.lt, w.ln, hB, hF), func(dir string) error {
 		if err := viCloneDir(base, dir); err != nil {
 			return err
 		}
-		db, b, f, err := viOpenStores(dir, false, nil)
+		db, b, f, err := viOpenStores(&w.params, dir, false, nil)
 		if err != nil {
 			return err
 		}
@@ -512,7 +653,7 @@ func (t *viTemplates) forHeights(hB, hF int) (string, error) {
 		}
 		var bh []headerfs.BlockHeader
 		for h := 1; h <= top; h++ {
-			bh = append(bh, headerfs.BlockHeader{BlockHeader: t.w.main[h], Height: uint32(h)})
+			bh = append(bh, headerfs.BlockHeader{BlockHeader: w.main[h], Height: uint32(h)})
 		}
 		if len(bh) > 0 {
 			if err := b.WriteHeaders(bh...); err != nil {
@@ -522,7 +663,7 @@ func (t *viTemplates) forHeights(hB, hF int) (string, error) {
 		var fh []headerfs.FilterHeader
 		for h := 1; h <= hF; h++ {
 			fh = append(fh, headerfs.FilterHeader{
-				HeaderHash: t.w.main[h].BlockHash(), FilterHash: t.w.mainF[h], Height: uint32(h),
+				HeaderHash: w.main[h].BlockHash(), FilterHash: w.mainF[h], Height: uint32(h),
 			})
 		}
 		if len(fh) > 0 {
@@ -539,7 +680,7 @@ func (e *viEnv) open() error {
 		e.plan = &viPlan{}
 	}
 	e.plan.arm("", 0)
-	db, b, f, err := viOpenStores(e.dir, false, e.plan)
+	db, b, f, err := viOpenStores(&e.w.params, e.dir, false, e.plan)
 	if err != nil {
 		e.up = false
 		return err
@@ -1155,7 +1296,7 @@ func (e *viEnv) probe(run int, out *[]viStepOut) {
 			PrevBlock:  tip.BlockHash(),
 			MerkleRoot: viSum("probe", e.w.seed, strconv.Itoa(hb)),
 			Timestamp:  time.Unix(viT0+600*int64(hb)+2, 0),
-			Bits:       viParams.PowLimitBits,
+			Bits:       e.w.params.PowLimitBits,
 		}
 		viMine(hd, true)
 		e.byBH[hd.BlockHash()] = 300 + hb
@@ -1193,6 +1334,9 @@ func (e *viEnv) probe(run int, out *[]viStepOut) {
 // a reset step failing, a mismatch) discards the directory and clones afresh.
 type viSlot struct {
 	dir  string
+	// class of the world whose genesis block the directory was created
+	// with; a directory is never reused across classes
+	class string
 	db   walletdb.DB
 	b    headerfs.BlockHeaderStore
 	f    headerfs.FilterHeaderStore
@@ -1337,7 +1481,7 @@ func viFileSize(path string, want int64) bool {
 
 // acquire gives e open stores at block height top / filter height hF.
 func (s *viSlot) acquire(t *viTemplates, e *viEnv, top, hF int, scratch string) error {
-	if s.dir != "" && s.db != nil && os.Getenv("VERIF_NOREUSE") == "" {
+	if s.dir != "" && s.db != nil && s.class == e.w.class && os.Getenv("VERIF_NOREUSE") == "" {
 		if s.reset(e, top, hF) {
 			return nil
 		}
@@ -1345,7 +1489,7 @@ func (s *viSlot) acquire(t *viTemplates, e *viEnv, top, hF int, scratch string) 
 	s.discard()
 	viClones.Add(1)
 	e.db, e.b, e.f, e.plan, e.up = nil, nil, nil, nil, false
-	tmpl, err := t.forHeights(top, hF)
+	tmpl, err := t.forHeights(e.w, top, hF)
 	if err != nil {
 		return fmt.Errorf("template: %w", err)
 	}
@@ -1353,7 +1497,7 @@ func (s *viSlot) acquire(t *viTemplates, e *viEnv, top, hF int, scratch string) 
 	if err != nil {
 		return err
 	}
-	s.dir, e.dir = dir, dir
+	s.dir, e.dir, s.class = dir, dir, e.w.class
 	if err := viCloneDir(tmpl, dir); err != nil {
 		return err
 	}
@@ -1386,6 +1530,12 @@ func viRunPath(t *viTemplates, slot *viSlot, p viPathIn, scratch string) (out vi
 	}
 	cfg := p.Steps[0].Act.Cfg
 	e := &viEnv{w: t.w, cfg: cfg, hh: len(p.InitObs.B.ByH), params: viParams}
+	if w, err := t.world(cfg.Lt, cfg.Ln); err != nil {
+		out.Error = err.Error()
+		return
+	} else {
+		e.w, e.params = w, w.params
+	}
 	if cfg.Ck >= 0 {
 		e.params.Net = viCkNetBase + wire.BitcoinNet(cfg.Ck)
 	}
@@ -1403,12 +1553,12 @@ func viRunPath(t *viTemplates, slot *viSlot, p viPathIn, scratch string) (out vi
 		}
 		slot.release(e)
 	}()
-	if e.hh > t.w.hh || cfg.S+cfg.N > t.w.hh {
+	if e.hh > e.w.hh || cfg.S+cfg.N > e.w.hh {
 		out.Error = "configuration exceeds the generated universe"
 		return
 	}
 	if cfg.Kind != "none" {
-		br, err := t.w.getBranch(cfg.X, cfg.Kind)
+		br, err := e.w.getBranch(cfg.X, cfg.Kind)
 		if err != nil {
 			out.Error = err.Error()
 			return
@@ -1513,7 +1663,7 @@ func TestVerifImportReplay(t *testing.T) {
 	if seed == "" {
 		seed = "1"
 	}
-	world, err := viNewWorld(seed, hh+1)
+	world, err := viNewWorld(seed, hh+1, -1, 0)
 	if err != nil {
 		t.Fatal(err)
 	}
